@@ -47,9 +47,13 @@ partial def parseBodyR (rule : Nat) (key : Key) (j : Json) : JE (FlatMap → Exc
   | "pass" => pure (fun v => .ok v)
   | "fail" => do let id ← J.nat j "id"; pure (fun _ => .error { cls := .user id })
   | "graph" => do
-      let g ← parseGraphR rule (← J.field j "g")
+      let gj ← J.field j "g"
+      let g ← parseGraphR rule gj
       let r := compile defaultStepSlack g
-      pure (fun v => (runS flatOps r (ruleSched 8 rule) v).result)
+      -- an explicit step limit below 1 is refused when the run starts ("max run steps limit
+      -- must be at least 1"), reported by the harness as user error 9996
+      if J.boolD gj "negMaxSteps" false && !g.dag then pure (fun _ => .error { cls := .user 9996 })
+      else pure (fun v => (runS flatOps r (ruleSched 8 rule) v).result)
   | op => throw s!"bad body op {op}"
 
 partial def parseGraphR (rule : Nat) (j : Json) : JE (GraphDef FlatMap) := do
@@ -116,6 +120,8 @@ open Lean EinoV EinoV.Engine
 partial def outcomeJson (j : Json) (input : FlatMap) : JE Json := do
   let g ← parseGraphR 0 j
   let r := compile defaultStepSlack g
+  if J.boolD j "negMaxSteps" false && !g.dag then
+    return Json.mkObj [("result", resultJson (.error { cls := .user 9996 })), ("trace", J.mkArr []), ("alts", J.mkArr [])]
   let out := run flatOps r input
   let nodesJ := J.arrD j "nodes"
   let subOf (k : Key) : Option Json :=
